@@ -178,3 +178,19 @@ Proof.
   - repeat constructor; simpl; intuition lia.
   - repeat constructor; vm_compute; lia.
 Qed.
+
+(** ** statements as they appear in Props/C08.v *)
+
+Theorem level_swap_t_maps_all : forall s i,
+  WF s -> s_kind s = KTdd -> S i < nlevels s ->
+  s_l2v (level_swap_t s i) = swap_adj i (s_l2v s)
+  /\ s_v2l (level_swap_t s i) = map (swap_idx i) (s_v2l s)
+  /\ (forall l, nth_error (s_l2v (level_swap_t s i)) l = nth_error (s_l2v s) (swap_idx i l))
+  /\ (forall v, nth_error (s_v2l (level_swap_t s i)) v = option_map (swap_idx i) (nth_error (s_v2l s) v)).
+Proof. intros s i _ _. exact (level_swap_t_maps s i). Qed.
+
+Theorem level_swap_t_handles_both : forall s i,
+  WF s -> s_kind s = KTdd -> S i < nlevels s ->
+  forall h, In h (s_handles s) ->
+    In h (s_handles (level_swap_t s i)) /\ ref_ok (level_swap_t s i) (eref (snd h)).
+Proof. intros s i H Hk Hi h Hh. exact (conj Hh (level_swap_t_handle_ok s i H Hk Hi h Hh)). Qed.
